@@ -86,6 +86,9 @@ EvEncode ==
           \cup (IF (k = "ListEmpty") # (Case.list = <<>>) THEN {"C11.listEmptyIff"} ELSE {})
           \cup (IF k \in {"TooMuch", "ListEmpty"} /\ Case.list # <<>> /\ UpperBound >= 0 /\ MinCapFor(ListSet, UpperBound) >= 0
                 THEN {"C10.tooMuchButPlainFits"} ELSE {})
+          \* C16: a message that is due for compaction and fits after compaction must not be refused
+          \cup (IF k \in {"TooMuch", "ListEmpty"} /\ Case.list # <<>> /\ MacroDue /\ UpperBound >= 0 /\ MinCapFor(ListSet, UpperBound) >= 0
+                THEN {"C16.macroRefused"} ELSE {})
           \cup (IF k = "Ok" THEN ShapeFails ELSE {})
      /\ v_rd' = IF k = "Ok" /\ Len(Data) > 0 THEN RInit ELSE v_rd
   /\ v_l' = v_l + 1 /\ UNCHANGED v_c
